@@ -29,7 +29,7 @@ def op_pool():
     pool.append(["write", "a"])
     pool.append(["write", ""])
     pool.append(["html", "h"])
-    pool.append(["json", "\"j\""])
+    pool.append(["json", "[\"j\"]"])
     pool.append(["redirect", "/t", 302])
     pool.append(["nocontent", 204])
     pool.append(["writeheader", 500])
@@ -54,7 +54,7 @@ def rand_op(rng):
     if k == "formatted":
         return [k, rng.choice([200, 201, 404, 422, 500]), rng.choice(["m", "not found"])]
     if k == "json":
-        return [k, json.dumps(rng.choice(BODIES))]
+        return [k, json.dumps(rng.choice([[], ["a"], ["b", "c"]]), separators=(",", ":"))]
     if k == "redirect":
         return [k, rng.choice(URLS), rng.choice([301, 302, 307])]
     return [k, rng.choice(CODES)]
